@@ -159,6 +159,7 @@ def encoder_cases(chk, rng, n, st, enc, enc_t):
     from rl_blox.blox.preprocessing import two_hot_cross_entropy_loss
     Batch = namedtuple("Batch", ["observation", "action", "reward", "next_observation", "terminated", "truncated"])
     bins = st.the_bins
+    rollout_exprs, rollout_recs = [], []
     for i in range(n):
         N, H = int(rng.choice([2, 4])), int([1, 2, 3, 4, 5][i % 5])     # horizons >= 3: a window can go on after a termination
         obs, act, nobs = dy(rng, (N, H, 3)), dy(rng, (N, H, 1)), dy(rng, (N, H, 3))
@@ -173,15 +174,26 @@ def encoder_cases(chk, rng, n, st, enc, enc_t):
         zs = enc.encode_zs(batch.observation[:, 0])
         mask = np.ones(N)
         sdyn = srl = sdl = 0.0
+        per_step = {"dyn": [], "rew": [], "done": []}      # per-step, per-sample prediction errors for the Coq rollout model
         for t in range(H):
             pd, zs, logits = enc.model_head(zs, batch.action[:, t])
             tz = np.asarray(enc_t.encode_zs(batch.next_observation[:, t]), dtype=float)
-            sdyn += float(np.mean(np.mean((np.asarray(zs, dtype=float) - tz) ** 2, axis=1) * mask))
+            e_dyn = np.mean((np.asarray(zs, dtype=float) - tz) ** 2, axis=1)
+            sdyn += float(np.mean(e_dyn * mask))
             ce = np.asarray(two_hot_cross_entropy_loss(bins, logits, batch.reward[:, t]), dtype=float)
             srl += float(np.mean(ce * mask))
+            e_done = (np.asarray(pd, dtype=float).reshape(N) - term[:, t]) ** 2
             if env_term:
-                sdl += float(np.mean((np.asarray(pd, dtype=float) - term[:, t]) ** 2 * mask))
+                sdl += float(np.mean(e_done * mask))
+            per_step["dyn"].append(e_dyn)
+            per_step["rew"].append(ce.reshape(N))
+            per_step["done"].append(e_done if env_term else np.zeros(N))
             mask = mask * (1 - term[:, t])
+        from common import flit, llit
+        for comp, val in (("dyn", impl[1]), ("rew", impl[2]), ("done", impl[3])):
+            rows = [[(float(per_step[comp][t][b]), float(1 - term[b, t])) for t in range(H)] for b in range(N)]
+            rollout_exprs.append(f"(sf (M.rollout_batch_loss float_ops {llit(rows, lambda r: llit(r, lambda e: '(' + flit(e[0]) + ', ' + flit(e[1]) + ')'))}))")
+            rollout_recs.append(({"N": N, "H": H, "component": comp, "terminated": term.tolist()}, val))
         spec = [wd * sdyn + wr * srl + wdone * sdl, sdyn, srl, sdl]
         case = {"N": N, "H": H, "reward": rew.tolist(), "terminated": term.tolist(), "environment_terminates": env_term}
         chk.case(("encoder", N, H, rew.tobytes(), term.tobytes(), env_term))
@@ -210,6 +222,14 @@ def encoder_cases(chk, rng, n, st, enc, enc_t):
             if not close(float(t2_), float(total), rtol=1e-6, atol=1e-7):
                 chk.fail("C07:model_based_encoder_loss:post-terminal", "encoder loss depends on data after the first terminated step of a subtrajectory",
                          {"case": case, "loss": float(total), "loss_after": float(t2_)})
+    _compare_rollouts(chk, rollout_exprs, rollout_recs)
+
+
+def _compare_rollouts(chk, exprs, recs):
+    from common import parse_f
+    for (case, impl), mr in zip(recs, chk.model_eval(exprs, per_file=60)):
+        if not close(impl, parse_f(mr), rtol=2e-4, atol=2e-5):
+            chk.disagree("model_based_encoder_loss.rollout", {"case": case, "impl": impl, "model": mr})
 
 
 def run(chk, rng, quick):
